@@ -10,7 +10,7 @@ import math
 
 import numpy as np
 
-from ..core import import_library
+from ..core import describe, import_library
 from ..gen import engines as E
 from ..probe import Probe, Reach
 from ..ref import norms as N
@@ -166,7 +166,7 @@ class PipelineMonitor:
         ctx, fl, engine = self.ctx, self.fl, args[0]
         if st is None:
             return
-        case = {"engine": str(engine), "inputs": st["inputs"]}
+        case = {"engine": describe(engine), "inputs": st["inputs"]}
         ctx.evaluated()
         if exc is not None:
             ctx.violation(f"process() raised {type(exc).__name__} on a ready engine", dict(case, error=repr(exc)[:300]), "no error", repr(exc)[:300])
@@ -255,7 +255,7 @@ class PipelineMonitor:
         if any(f" {o} is " in f" {r.antecedent.text} " or f"({o} is " in r.antecedent.text for rb in engine.rule_blocks for r in rb.rules for o in outs):
             ctx.hit("piece:output variable in antecedent")
         if fired_partial and nontrivial:
-            ctx.nontrivial(str(engine), tuple(tuple(rows_of(v)) for v in st["inputs"]))
+            ctx.nontrivial(describe(engine), tuple(tuple(rows_of(v)) for v in st["inputs"]))
 
 
 def set_inputs(engine, block, in_place=False, form=0):
@@ -339,7 +339,7 @@ def run(ctx):
                 except Exception:
                     pass  # judged by the monitor
             if i < 2:
-                ctx.sample("engine", {"fll": str(engine), "rows": rows[:3], "outputs": [ov.value for ov in engine.output_variables]})
+                ctx.sample("engine", {"fll": describe(engine), "rows": rows[:3], "outputs": [ov.value for ov in engine.output_variables]})
         examples(ctx, fl)
         probe.report(ctx)
         reach.report(ctx)
